@@ -187,6 +187,11 @@ PROPS['C01']['scenarios'] = (lambda old: (lambda tier, seed: old(tier, seed) + w
 PROPS['C01']['modules'] = ['IpcModel.Props.C01', 'IpcModel.Props.C16', 'IpcModel.Props.C01Value']
 PROPS['C01']['theorems'] += ['C16.C16_roundtrip', 'Wire.dec_enc', 'C01.C01_value_end_to_end']
 PROPS['C01']['claimed'] = True
+PROPS['C01']['builds'] = ['default', 'force-inprocess']
+PROPS['C01']['scenarios'] = (lambda old: (lambda tier, seed: old(tier, seed) + [{'build': b, 'args': ['bigvalue', '--tier', tier, '--seed', str(seed)], 'timeout': 3000}
+                                                                                  for b in ['default', 'force-inprocess']]))(PROPS['C01']['scenarios'])
+PROPS['C01']['rule'] += ('; plus typed values (one string, a sequence of medium-sized strings, halves next to an embedded sender) whose encoding lies on both sides of '
+                         'every power of two from 1 MiB to 64 MiB (thorough: 256 MiB), through recv / try_recv_timeout / receiver set + to, on the OS and the in-process transport')
 PROPS['C01']['rule'] += ('; plus seeded (schema, value) pairs (nested options/sequences/tuples/enums/strings/ints, with embedded endpoints) sent through the real '
                          'IpcSender::send: wire bytes compared with the model encoder and the received value with the model decoder')
 
